@@ -38,6 +38,7 @@ from monkeytype.typing import (
     GenericTypeRewriter,
     NoneType,
     NoOpRewriter,
+    RewriteLargeTypedDictToDict,
     TypeRewriter,
     field_annotations,
     make_generator,
@@ -227,13 +228,15 @@ def shrink_traced_types(
     arg_types: DefaultDict[str, Set[type]] = collections.defaultdict(set)
     return_types: Set[type] = set()
     yield_types: Set[type] = set()
+    # the traces may have been collected under a larger limit than max_typed_dict_size
+    limit = RewriteLargeTypedDictToDict(max_typed_dict_size)
     for t in traces:
         for arg, typ in t.arg_types.items():
-            arg_types[arg].add(typ)
+            arg_types[arg].add(limit.rewrite(typ))
         if t.return_type is not None:
-            return_types.add(t.return_type)
+            return_types.add(limit.rewrite(t.return_type))
         if t.yield_type is not None:
-            yield_types.add(t.yield_type)
+            yield_types.add(limit.rewrite(t.yield_type))
     shrunken_arg_types = {
         name: shrink_types(ts, max_typed_dict_size) for name, ts in arg_types.items()
     }
